@@ -86,8 +86,18 @@ def contract(self, r, out, r0, spec):
     if isinstance(out, np.ndarray) and isinstance(r, np.ndarray) and np.shares_memory(out, r):
         ctx.violation('potential:result-aliases-r', '%s.calculate returns memory shared with r' % type(self).__name__)
     ref = R.u_ref(spec, r0, spec['sigma'])
-    ok, e = agree(out, ref)
-    ctx.observe('potential_vs_definition/1e-12', e / 1e-12)
+    single = isinstance(r, np.ndarray) and r.dtype == np.float32
+    if single:
+        # single-precision distances: the result is only expected to single precision (12th powers, cancellation between them)
+        with np.errstate(all='ignore'):
+            okv = np.isclose(np.asarray(out, dtype=float), ref, rtol=2e-4, atol=2e-4 * abs(spec.get('eps', 1.0)) * (1 + np.abs(R.u_ref(dict(spec, eps=abs(spec.get('eps', 1.0))), r0, spec['sigma']))) if False else 2e-4 * abs(spec.get('eps', 1.0)), equal_nan=True)
+            okv |= (np.asarray(out, dtype=float) == ref)
+            big = np.abs(ref) > 1e3 * abs(spec.get('eps', 1.0))
+            okv |= big & np.isclose(np.asarray(out, dtype=float), ref, rtol=1e-3)
+        ok, e = bool(okv.all()), 0.0 if okv.all() else 1.0
+    else:
+        ok, e = agree(out, ref)
+        ctx.observe('potential_vs_definition/1e-12', e / 1e-12)
     if not ok:
         out = np.asarray(out, dtype=float)
         with np.errstate(all='ignore'):
@@ -191,11 +201,16 @@ def run_func(ctx, case):
             r = r[::-1].copy()
     else:
         r = np.array([float(rng.uniform(0.05, 6.0))])
+    if g == 'domain' and rng.random() < 0.25:
+        # Domain(dr=1) yields an INTEGER grid; float32 arrays come from trajectory files
+        r = np.arange(1, len(r) + 1) if rng.random() < 0.6 else r.astype(np.float32)
     sk = case['sig']
+    if r.dtype == np.float32 and sk in ('above', 'inside'):
+        sk = 'ongrid' if len(r) > 20 else 'below'      # (sigma/r)^12 must stay inside the single-precision range: sigma <= 20 r_min
     if sk == 'ongrid':
-        sigma = float(r[int(rng.integers(0, len(r)))])
+        sigma = float(r[int(rng.integers(0, len(r) if r.dtype != np.float32 else min(len(r), 20)))])
     elif sk == 'inside':
-        sigma = float(rng.uniform(r.min(), r.max())) if len(r) > 1 else float(r[0] * rng.uniform(0.5, 2))
+        sigma = float(rng.uniform(float(r.min()), float(r.max()))) if len(r) > 1 else float(r[0] * rng.uniform(0.5, 2))
     elif sk == 'below':
         sigma = float(r.min() * 0.5)
     else:
@@ -272,6 +287,7 @@ def run_func(ctx, case):
         ctx.nontrivial(case)
     ctx.count('potential', case['pot'])
     ctx.count('grid', g)
+    ctx.count('r_dtype', str(r.dtype))
     ctx.count('sigma_kind', sk)
     ctx.sample({'potential': spec, 'grid': g, 'n': len(r), 'r_head': r[:3], 'u_head': out[:3]}, limit=3)
 
